@@ -301,7 +301,7 @@ func run(spec *Spec, tier, replay string, keep, buildOnly bool) int {
 			m.Rule = r.Rule
 		}
 		for _, s := range r.Samples {
-			if len(m.Samples) < 12 {
+			if len(m.Samples) < 64 {
 				m.Samples = append(m.Samples, s)
 			}
 		}
